@@ -1292,7 +1292,9 @@ class QvmCpu:
         string = self.pop(CellType.STRING)
         try:
             literal = grammar.numeric_literal.parse_string(string)[0]
-            value = float(literal.eval())
+            # VAL yields a DOUBLE: the digits as written, not the
+            # value of a SINGLE literal
+            value = float(literal.value)
         except ParseException:
             value = 0.0
         except QbSyntaxError:
